@@ -209,3 +209,7 @@ func ConcreteBool(b bool) bool { return b }
 
 // Stop ends the path (nothing more to check).
 func Stop() { panic(StopReplay{}) }
+
+// Memo returns f(): under the engine the result of a CONCRETE, deterministic prefix is
+// computed once per worker and reused on the following paths (key identifies it).
+func Memo(key string, f func() string) string { return f() }
